@@ -298,11 +298,13 @@ async def _run_app(
 
     runner = AppRunner(app, **kwargs)
 
-    await runner.setup()
-
     sites: list[BaseSite] = []
 
     try:
+        # Inside the try: if startup fails half-way, what has been started
+        # (e.g. earlier cleanup contexts) still gets cleaned up.
+        await runner.setup()
+
         if host is not None:
             if isinstance(host, str):
                 sites.append(
